@@ -16,6 +16,7 @@ package ratelimiter
 // of a case fall into the limiter's first period and nothing depends on real time.
 
 import (
+	stdcontext "context"
 	"fmt"
 	"math/rand"
 	"net/http"
@@ -23,6 +24,7 @@ import (
 	"sort"
 	"strings"
 	"sync"
+	"sync/atomic"
 	"testing"
 	"time"
 
@@ -199,18 +201,31 @@ type c09Out struct {
 	Result string `json:"result"`
 	Status int    `json:"status"` // 0 = filter produced no response
 	Tags   string `json:"tags"`
+	Stuck  bool   `json:"stuck,omitempty"` // outer watchdog had to cancel the request (=> inconclusive)
 }
 
+// every timeoutDuration generated here is <= 600 ms; a Handle that is still blocked after
+// c09Watchdog is cancelled through the request context and the case is given up as
+// inconclusive (never a verdict: wall-clock upper bounds do not decide anything).
+const c09Watchdog = 45 * time.Second
+
+var c09Stuck atomic.Bool
+
 func c09Handle(f *RateLimiter, method, path string) c09Out {
-	std, err := http.NewRequest(method, "http://c09.test"+path, nil)
+	cctx, cancel := stdcontext.WithCancel(stdcontext.Background())
+	defer cancel()
+	std, err := http.NewRequestWithContext(cctx, method, "http://c09.test"+path, nil)
 	if err != nil {
 		panic(err)
 	}
 	req, _ := httpprot.NewRequest(std)
 	ctx := context.New(nil)
 	ctx.SetInputRequest(req)
+	var fired atomic.Bool
+	wd := time.AfterFunc(c09Watchdog, func() { fired.Store(true); c09Stuck.Store(true); cancel() })
 	res := f.Handle(ctx)
-	out := c09Out{Result: res, Tags: ctx.Tags()}
+	wd.Stop()
+	out := c09Out{Result: res, Tags: ctx.Tags(), Stuck: fired.Load()}
 	if resp := ctx.GetOutputResponse(); resp != nil {
 		if hr, ok := resp.(*httpprot.Response); ok {
 			out.Status = hr.StatusCode()
@@ -278,6 +293,10 @@ func c09Drive(r *kit.Run, rng *rand.Rand, f *RateLimiter, ref *c09Ref, n int, ph
 		if r.Guard("C09:filter:"+phase, detail(), func() { got = c09Handle(f, method, path) }) {
 			return
 		}
+		if got.Stuck {
+			r.Inconclusive(fmt.Sprintf("filter:%s: Handle still blocked after %s although every generated timeoutDuration is <= 100ms (%s %s)", phase, c09Watchdog, method, path))
+			return
+		}
 		r.Eval(1)
 		want := "pass"
 		if limited {
@@ -328,6 +347,9 @@ func TestVerif_C09_FilterRules(t *testing.T) {
 	for i := 0; i < n; i++ {
 		if !r.Mine(i) {
 			continue
+		}
+		if c09Stuck.Load() {
+			break // already inconclusive; do not sit out the watchdog a thousand times
 		}
 		rng := r.CaseRand(i)
 		s := c09GenSpec(rng)
@@ -438,6 +460,9 @@ func TestVerif_C09_FilterReload(t *testing.T) {
 		if !r.Mine(i) {
 			continue
 		}
+		if c09Stuck.Load() {
+			break
+		}
 		rng := r.CaseRand(i)
 		s := c09GenSpec(rng)
 		literal := i < 40
@@ -463,7 +488,9 @@ func TestVerif_C09_FilterReload(t *testing.T) {
 		if literal {
 			for k := 0; k < s.Policies[0].Limit; k++ {
 				ref.serve("GET", "/a")
-				if got := c09Handle(f, "GET", "/a"); got.Result != "" {
+				if got := c09Handle(f, "GET", "/a"); got.Stuck {
+					r.Inconclusive("filter:reload:literal: Handle blocked beyond the watchdog while filling the budget")
+				} else if got.Result != "" {
 					r.Violation("filter:reload:literal:limited-although-budget-left", detail())
 				}
 			}
@@ -520,6 +547,10 @@ func TestVerif_C09_FilterReload(t *testing.T) {
 			if literal {
 				_, limited := ref.serve("GET", "/a")
 				got := c09Handle(f, "GET", "/a")
+				if got.Stuck {
+					r.Inconclusive("filter:reload:literal: Handle blocked beyond the watchdog after reload " + kindOf)
+					break
+				}
 				r.Eval(1)
 				log = append(log, c09Req{"GET", "/a", 0, map[bool]string{true: "limited", false: "pass"}[limited], got})
 				if (g == 1 && !limited) || (g == 2 && limited) {
@@ -596,6 +627,14 @@ func TestVerif_C09_FilterWaits(t *testing.T) {
 		r.Eval(N)
 		var left []time.Duration
 		waited, rejected := 0, 0
+		stuck := false
+		for _, x := range results {
+			stuck = stuck || x.out.Stuck
+		}
+		if stuck {
+			r.Inconclusive(fmt.Sprintf("filter:waits: a Handle call was still blocked after %s (timeout %s)", c09Watchdog, s.Policies[0].Timeout))
+			break
+		}
 		for _, x := range results {
 			if x.out.Result == resultRateLimited {
 				rejected++
